@@ -56,11 +56,14 @@ def plan(tier, seed):
     for P in (2, 4):
         for ch in range(8):
             jobs.append(("screen", P, ch, 8, seed, 20000))
+    jobs.append(("wiring", seed, 4000))
     jobs.sort(key=lambda j: -j[-1])
     return jobs
 
 
 def run_job(job):
+    if job[0] == "wiring":
+        return job_wiring(job)
     return {"sweep": job_sweep, "sweepjit": job_sweepjit, "structural": job_structural, "breaks": job_breaks, "fixed": job_fixed, "screen": job_screen}[job[0]](job)
 
 
@@ -419,4 +422,60 @@ def job_screen(job):
                 r.outcome((P, combo, cnts, tuple(fixed)))
     r.count("screen_cases_skipped_near_threshold", skipped)
     r.sample({"screen": "real _homozygosity_probabilities inside _mcmc", "ploidy": P, "threshold": thr, "F": F}, cap=1)
+    return r
+
+
+def job_wiring(job):
+    """every sampler option given on the `mchap assemble` command line reaches the sampler object that is fitted (and nothing else does)"""
+    from .. import env, stddata
+    import mchap.application.assemble as asm
+
+    env.quiet()
+    r = Result()
+    payload = {"kind": "job", "job": job}
+    d = env.scratch_dir("c15w")
+    D = stddata.Data(d)
+    bed = D.bed_subset(["L1", "L3"], "w.bed")
+    real = asm.DenovoMCMC
+    seen = []
+
+    class Rec(real):
+        def fit(self, *a, **k):
+            seen.append({f: getattr(self, f) for f in ("ploidy", "n_alleles", "inbreeding", "steps", "chains", "fix_homozygous", "recombination_step_probability",
+                                                       "partial_dosage_step_probability", "dosage_step_probability", "temperatures", "random_seed", "llk_cache_threshold")})
+            return real.fit(self, *a, **k)
+
+    settings = [
+        dict(fix=0.6, steps=77, burn=11, chains=3, rec=0.3, pdos=0.2, dos=0.7, seed=5, cache=7, temps=(0.4, 1.0), F=0.15),
+        dict(fix=0.85, steps=64, burn=20, chains=1, rec=1.0, pdos=0.0, dos=0.25, seed=0, cache=-1, temps=(1.0,), F=0.0),
+    ]
+    for st in settings:
+        seen.clear()
+        extra = ["--mcmc-fix-homozygous", str(st["fix"]), "--mcmc-chains", str(st["chains"]), "--mcmc-recombination-step-probability", str(st["rec"]),
+                 "--mcmc-partial-dosage-step-probability", str(st["pdos"]), "--mcmc-dosage-step-probability", str(st["dos"]), "--mcmc-seed", str(st["seed"]),
+                 "--mcmc-llk-cache-threshold", str(st["cache"]), "--inbreeding", str(st["F"]), "--mcmc-temperatures"] + [str(t) for t in st["temps"]]
+        argv = D.assemble_args(bed=bed, extra=extra)
+        for opt, val in (("--mcmc-steps", st["steps"]), ("--mcmc-burn", st["burn"])):
+            argv[argv.index(opt) + 1] = str(val)
+        from ..seams import patched
+
+        with patched((asm, "DenovoMCMC", Rec)):
+            stddata.run(argv)
+        env.quiet()
+        r.evaluations += 1
+        r.nontrivial += 1
+        if len(seen) != 2 * 3:
+            r.violation("wiring-count", "%d sampler objects fitted for 2 loci x 3 samples" % len(seen), payload)
+        for i, got in enumerate(seen):
+            sample = D.samples[i % 3]
+            want = dict(ploidy=stddata.PLOIDY[sample], inbreeding=st["F"], steps=st["steps"], chains=st["chains"], fix_homozygous=st["fix"],
+                        recombination_step_probability=st["rec"], partial_dosage_step_probability=st["pdos"], dosage_step_probability=st["dos"],
+                        random_seed=st["seed"], llk_cache_threshold=st["cache"])
+            for k_, v in want.items():
+                if got[k_] != v:
+                    r.violation("wiring|%s" % k_, "sampler for %s received %s=%r, the command line says %r (%s)" % (sample, k_, got[k_], v, extra), payload)
+            if [float(t) for t in got["temperatures"]] != [float(t) for t in st["temps"]]:
+                r.violation("wiring|temperatures", "sampler for %s received temperatures %r, the command line says %r" % (sample, got["temperatures"], st["temps"]), payload)
+        r.outcome(tuple(sorted(st.items())))
+    r.sample({"wiring": "assemble CLI options -> DenovoMCMC attributes", "settings": len(settings)})
     return r
